@@ -16,7 +16,7 @@ from cgroup import Case
 
 
 class CompilerProp:
-    def __init__(self, pid: str, gen: Callable, judge: Callable, n_quick: int, n_thorough: int, with_query=True, how: str = "", after: Optional[Callable] = None, nontrivial: Optional[Callable] = None):
+    def __init__(self, pid: str, gen: Callable, judge: Callable, n_quick: int, n_thorough: int, with_query=True, how: str = "", after: Optional[Callable] = None, nontrivial: Optional[Callable] = None, use_gxx: bool = False):
         self.pid = pid
         self.gen = gen
         self.judge = judge
@@ -24,6 +24,7 @@ class CompilerProp:
         self.n_thorough = n_thorough
         self.with_query = with_query
         self.after = after
+        self.use_gxx = use_gxx
         self.nontrivial = nontrivial or cgroup.nontrivial
         self.how = how or "translate `source` (plus the synthetic metadata of tools/qgen.py) on `backend` through apply_ast_transformations + write_cpp_files; run the emitted per-event code on `events`"
 
@@ -33,6 +34,35 @@ class CompilerProp:
             if c.result is None:
                 cgroup.translate(c)
         cgroup.run_cases(ctx, cases, self.with_query)
+        self.gxx(ctx, cases)
+
+    def gxx(self, ctx, cases: List[Case]):
+        """g++ oracle: always for programs the Lean semantics cannot interpret; for every case in
+        the thorough tier; for a small sample in the quick tier (validation of the C++ semantics)."""
+        if not self.use_gxx:
+            return
+        acc = [c for c in cases if c.result and c.result.get("ok") and c.answer and "bad" not in c.answer]
+        need = [c for c in acc if cgroup.needs_gxx(c)]
+        if ctx.tier == "thorough":
+            extra = [c for c in acc if c not in need]
+        else:
+            rest = [c for c in acc if c not in need]
+            extra = rest[: max(0, 12 - ctx.dist.get("g++:validated", 0))]
+        if not need and not extra:
+            return
+        lean_exec = {id(c): list(c.answer.get("exec") or []) for c in extra}
+        cgroup.attach_gxx(need + extra)
+        ctx.count("g++:decided(opaque to the Lean semantics)", len(need))
+        for c in extra:
+            ctx.count("g++:validated")
+            for i, (g, le) in enumerate(zip(c.gxx_exec, lean_exec[id(c)])):
+                if g is None:
+                    continue
+                ok, why = cgroup.same_outcome(g, le)
+                if not ok:
+                    ctx.disagreement("C++ semantics (Cpp/Sem.lean on the parsed text) vs g++ on the real text",
+                                     {"backend": c.backend, "source": c.source(), "event": i, "body": c.result["query"]}, le, g)
+                    break
 
     def stream(self, ctx, cases: List[Case], name: str):
         self.evaluate(ctx, cases)
